@@ -84,15 +84,15 @@ theorem poolCount_of_noTicket (k : Nat) (l : List FrontMsg) (h : ∀ m ∈ l, ms
     rw [h x List.mem_cons_self, ih (fun m hm => h m (List.mem_cons_of_mem _ hm))]
     simp
 
-theorem ackChans_mgr (st : Core) (id : Id) : (st.ackChans id).mgr = st.mgr := rfl
-theorem ackChans_dead (st : Core) (id : Id) : (st.ackChans id).dead = st.dead := rfl
+theorem ackAt_mgr (st : Core) (c : Option ChanId) : (st.ackAt c).mgr = st.mgr := by cases c <;> rfl
+theorem ackAt_dead (st : Core) (c : Option ChanId) : (st.ackAt c).dead = st.dead := by cases c <;> rfl
 
 /-! ### `buildUnsubscribeMessage` / `unsubscribe` -/
 
 theorem unsubscribe_spec (m : Mgr) (rid : Id) (s : SubId) (m' : Mgr) (uid : Id) (c : ChanId) (um : Text)
     (h : m.unsubscribe rid s = some (m', uid, c, um)) :
     alookup rid m.requests = some (.sub uid c um) ∧ (alookup s m.subs).isSome ∧
-    m' = ({ m with requests := areplace rid (.pendingCall none) m.requests, subs := aerase s m.subs }).markUnsubscribing uid rid := by
+    m' = ({ m with requests := areplace rid (.pendingCall none) m.requests, subs := aerase s m.subs }).markUnsubscribing uid rid c := by
   unfold Mgr.unsubscribe at h
   split at h
   · rename_i uid' c' um' _ h1 h2
@@ -116,19 +116,19 @@ theorem removeSubscription_spec (m : Mgr) (rid : Id) (s : SubId) (m' : Mgr) (uid
   · simp at h
 
 /-- the manager after `unsubscribe` -/
-def unsubMgr (m : Mgr) (rid uid : Id) (s : SubId) : Mgr :=
-  ({ m with requests := areplace rid (.pendingCall none) m.requests, subs := aerase s m.subs }).markUnsubscribing uid rid
+def unsubMgr (m : Mgr) (rid uid : Id) (s : SubId) (c : ChanId) : Mgr :=
+  ({ m with requests := areplace rid (.pendingCall none) m.requests, subs := aerase s m.subs }).markUnsubscribing uid rid c
 
 /-- the manager after `remove_subscription` -/
 def removedMgr (m : Mgr) (rid uid : Id) (s : SubId) : Mgr :=
   ({ m with requests := aerase rid m.requests, subs := aerase s m.subs }).releaseReservedSlot uid
 
-theorem unsubMgr_others (m : Mgr) (rid uid : Id) (s : SubId) :
-    (unsubMgr m rid uid s).subs = aerase s m.subs ∧ (unsubMgr m rid uid s).batches = m.batches ∧
-    (unsubMgr m rid uid s).handlers = m.handlers := by
+theorem unsubMgr_others (m : Mgr) (rid uid : Id) (s : SubId) (c : ChanId) :
+    (unsubMgr m rid uid s c).subs = aerase s m.subs ∧ (unsubMgr m rid uid s c).batches = m.batches ∧
+    (unsubMgr m rid uid s c).handlers = m.handlers := by
   unfold unsubMgr
-  obtain ⟨a, b, c⟩ := markUnsubscribing_others ({ m with requests := areplace rid (.pendingCall none) m.requests, subs := aerase s m.subs }) uid rid
-  exact ⟨a, b, c⟩
+  obtain ⟨a, b, c'⟩ := markUnsubscribing_others ({ m with requests := areplace rid (.pendingCall none) m.requests, subs := aerase s m.subs }) uid rid c
+  exact ⟨a, b, c'⟩
 
 theorem removedMgr_others (m : Mgr) (rid uid : Id) (s : SubId) :
     (removedMgr m rid uid s).subs = aerase s m.subs ∧ (removedMgr m rid uid s).batches = m.batches ∧
@@ -137,10 +137,10 @@ theorem removedMgr_others (m : Mgr) (rid uid : Id) (s : SubId) :
   obtain ⟨a, b, c⟩ := releaseReservedSlot_others ({ m with requests := aerase rid m.requests, subs := aerase s m.subs }) uid
   exact ⟨a, b, c⟩
 
-theorem unsubMgr_reqCount (k : Nat) (m : Mgr) (rid uid : Id) (s : SubId) :
-    reqCount k (unsubMgr m rid uid s).requests ≤ reqCount k m.requests := by
+theorem unsubMgr_reqCount (k : Nat) (m : Mgr) (rid uid : Id) (s : SubId) (c : ChanId) :
+    reqCount k (unsubMgr m rid uid s c).requests ≤ reqCount k m.requests := by
   unfold unsubMgr
-  have h1 := reqCount_markUnsubscribing k ({ m with requests := areplace rid (.pendingCall none) m.requests, subs := aerase s m.subs }) uid rid
+  have h1 := reqCount_markUnsubscribing k ({ m with requests := areplace rid (.pendingCall none) m.requests, subs := aerase s m.subs }) uid rid c
   have h2 := reqCount_areplace_none k rid m.requests
   simp only at h1
   omega
@@ -154,10 +154,10 @@ theorem removedMgr_reqCount (k : Nat) (m : Mgr) (rid uid : Id) (s : SubId) :
   omega
 
 /-- entries after `unsubscribe`: old ones or ticket-less ones -/
-theorem unsubMgr_mem (m : Mgr) (rid uid : Id) (s : SubId) (p : Id × Kind) (h : p ∈ (unsubMgr m rid uid s).requests) :
-    p ∈ m.requests ∨ p = (rid, .pendingCall none) ∨ p = (uid, .pendingUnsub rid) := by
+theorem unsubMgr_mem (m : Mgr) (rid uid : Id) (s : SubId) (c : ChanId) (p : Id × Kind) (h : p ∈ (unsubMgr m rid uid s c).requests) :
+    p ∈ m.requests ∨ p = (rid, .pendingCall none) ∨ p = (uid, .pendingUnsub rid c) := by
   unfold unsubMgr at h
-  rcases mem_markUnsubscribing _ uid rid p h with h1 | h1
+  rcases mem_markUnsubscribing _ uid rid c p h with h1 | h1
   · rcases mem_areplace p rid _ _ h1 with h2 | h2
     · exact Or.inl h2
     · exact Or.inr (Or.inl h2)
@@ -169,11 +169,11 @@ theorem removedMgr_mem (m : Mgr) (rid uid : Id) (s : SubId) (p : Id × Kind) (h 
   exact (mem_aerase p rid _ (mem_releaseReservedSlot _ uid p h)).1
 
 /-- lookups of entries that are neither slots nor markers, at keys other than the subscription's own -/
-theorem unsubMgr_alookup (m : Mgr) (rid uid : Id) (s : SubId) (k : Id) (kd : Kind)
-    (hk : kd ≠ .pendingCall none) (hk2 : kd ≠ .pendingUnsub rid) (hne : k ≠ rid) :
-    alookup k (unsubMgr m rid uid s).requests = some kd ↔ alookup k m.requests = some kd := by
+theorem unsubMgr_alookup (m : Mgr) (rid uid : Id) (s : SubId) (c : ChanId) (k : Id) (kd : Kind)
+    (hk : kd ≠ .pendingCall none) (hk2 : kd ≠ .pendingUnsub rid c) (hne : k ≠ rid) :
+    alookup k (unsubMgr m rid uid s c).requests = some kd ↔ alookup k m.requests = some kd := by
   unfold unsubMgr
-  rw [alookup_markUnsubscribing _ uid rid k kd hk hk2]
+  rw [alookup_markUnsubscribing _ uid rid k c kd hk hk2]
   simp only
   rw [alookup_areplace_ne k rid _ _ hne]
 
@@ -186,14 +186,14 @@ theorem removedMgr_alookup (m : Mgr) (rid uid : Id) (s : SubId) (k : Id) (kd : K
   rw [alookup_aerase_ne k rid _ hne]
 
 /-- at the subscription's own key nothing but a marker / nothing is left -/
-theorem unsubMgr_alookup_rid (m : Mgr) (rid uid : Id) (s : SubId) (h : (alookup rid m.requests).isSome) (kd : Kind)
-    (hk : kd ≠ .pendingCall none) (hk2 : kd ≠ .pendingUnsub rid) : alookup rid (unsubMgr m rid uid s).requests ≠ some kd := by
-  intro c
-  unfold unsubMgr at c
-  rw [alookup_markUnsubscribing _ uid rid rid kd hk hk2] at c
-  simp only at c
-  rw [alookup_areplace_self rid _ _ h] at c
-  simp at c; exact hk c.symm
+theorem unsubMgr_alookup_rid (m : Mgr) (rid uid : Id) (s : SubId) (c : ChanId) (h : (alookup rid m.requests).isSome) (kd : Kind)
+    (hk : kd ≠ .pendingCall none) (hk2 : kd ≠ .pendingUnsub rid c) : alookup rid (unsubMgr m rid uid s c).requests ≠ some kd := by
+  intro hc
+  unfold unsubMgr at hc
+  rw [alookup_markUnsubscribing _ uid rid rid c kd hk hk2] at hc
+  simp only at hc
+  rw [alookup_areplace_self rid _ _ h] at hc
+  simp at hc; exact hk hc.symm
 
 theorem removedMgr_alookup_rid (m : Mgr) (rid uid : Id) (s : SubId) (kd : Kind) (hk : kd ≠ .pendingCall none) :
     alookup rid (removedMgr m rid uid s).requests ≠ some kd := by
@@ -207,7 +207,7 @@ theorem removedMgr_alookup_rid (m : Mgr) (rid uid : Id) (s : SubId) (kd : Kind) 
 theorem buildUnsub_spec (st : Core) (rid : Id) (s : SubId) (st' : Core) (msg : FrontMsg)
     (h : buildUnsubscribeMessage st rid s = some (st', msg)) :
     ∃ uid c um, alookup rid st.mgr.requests = some (.sub uid c um) ∧ (alookup s st.mgr.subs).isSome ∧
-      st'.mgr = unsubMgr st.mgr rid uid s ∧
+      st'.mgr = unsubMgr st.mgr rid uid s c ∧
       st'.dead = st.dead ∧ st'.cap = st.cap ∧
       st'.chans = modifyAt (fun ch => { dropSender ch with unsubscribed := true }) st.chans c ∧
       msg = .request uid none (unsubRaw uid um s) := by
@@ -228,8 +228,8 @@ theorem buildUnsub_count (k : Nat) (st : Core) (rid : Id) (s : SubId) (st' : Cor
   subst hmsg
   refine ⟨?_, rfl⟩
   unfold coreCount
-  rw [hm, (unsubMgr_others st.mgr rid uid s).2.1]
-  have := unsubMgr_reqCount k st.mgr rid uid s
+  rw [hm, (unsubMgr_others st.mgr rid uid s c).2.1]
+  have := unsubMgr_reqCount k st.mgr rid uid s c
   omega
 
 /-! ### ticket accounting of the handlers -/
@@ -337,7 +337,7 @@ theorem completeSubscribe_count (k : Nat) (st : Core) (r : Response) (uid : Id) 
         intro m hm; simp [queuedMsgs_completeIfAlive] at hm
       | some m' =>
         obtain ⟨_, _, e⟩ := insertSubscription_spec _ _ _ _ _ _ _ hins
-        have hcc : coreCount k ({ st with mgr := m' }.newChan (.sub s) t.op uid).1 = coreCount k st := by
+        have hcc : coreCount k ({ st with mgr := m' }.newChan (.sub s) t.op uid r.id).1 = coreCount k st := by
           simp [coreCount, Core.newChan, e, reqCount, kindOp]
         simp only
         by_cases hal : st.alive t = true
@@ -346,14 +346,14 @@ theorem completeSubscribe_count (k : Nat) (st : Core) (r : Response) (uid : Id) 
           · simp only [compCount, hcc]; omega
           · intro m hm; simp [queuedMsgs] at hm
         · simp only [hal]
-          obtain ⟨a, b, c⟩ := abandonedSubscribe_count k ({ st with mgr := m' }.newChan (.sub s) t.op uid).1 st.chans.length s t
+          obtain ⟨a, b, c⟩ := abandonedSubscribe_count k ({ st with mgr := m' }.newChan (.sub s) t.op uid r.id).1 st.chans.length s t
           exact ⟨by simp only [Bool.false_eq_true, if_false]; omega, by simpa using c⟩
 
 /-- `complete_pending_call`: either a plain pending call, or the acknowledgement of an unsubscribe -/
 theorem completePendingCall_spec (m : Mgr) (id : Id) (m' : Mgr) (t : Option Ticket)
     (h : m.completePendingCall id = some (m', t)) :
     (alookup id m.requests = some (.pendingCall t) ∧ m' = { m with requests := aerase id m.requests }) ∨
-    (∃ rid, alookup id m.requests = some (.pendingUnsub rid) ∧ t = none ∧
+    (∃ rid c, alookup id m.requests = some (.pendingUnsub rid c) ∧ t = none ∧
       m' = ({ m with requests := aerase id m.requests }).releaseReservedSlot rid) := by
   unfold Mgr.completePendingCall at h
   split at h
@@ -362,11 +362,11 @@ theorem completePendingCall_spec (m : Mgr) (id : Id) (m' : Mgr) (t : Option Tick
     obtain ⟨e1, e2⟩ := h
     subst e1 e2
     exact Or.inl ⟨hl, rfl⟩
-  · rename_i rid hl
+  · rename_i rid c hl
     simp at h
     obtain ⟨e1, e2⟩ := h
     subst e1 e2
-    exact Or.inr ⟨rid, hl, rfl, rfl⟩
+    exact Or.inr ⟨rid, c, hl, rfl, rfl⟩
   · simp at h
 
 /-- common consequences of `complete_pending_call`: only erasures, the other tables untouched -/
@@ -377,7 +377,7 @@ theorem completePendingCall_frame (m : Mgr) (id : Id) (m' : Mgr) (t : Option Tic
     (∀ k, reqCount k m'.requests + (if t.map (·.op) = some k then 1 else 0) ≤ reqCount k m.requests) ∧
     (∀ k kd, kd ≠ .pendingCall none → k ≠ id → (alookup k m'.requests = some kd ↔ alookup k m.requests = some kd)) ∧
     alookup id m'.requests = none := by
-  rcases completePendingCall_spec m id m' t h with ⟨hl, e⟩ | ⟨rid, hl, e1, e⟩
+  rcases completePendingCall_spec m id m' t h with ⟨hl, e⟩ | ⟨rid, _, hl, e1, e⟩
   · subst e
     refine ⟨rfl, rfl, rfl, fun p hp => mem_aerase p id _ hp, ?_, ?_, alookup_aerase_self id _⟩
     · intro k
@@ -448,7 +448,7 @@ theorem processSingleResponse_count (k : Nat) (st st' : Core) (r : Response) (ef
         simp [hc] at h
         obtain ⟨e1, e2⟩ := h
         subst e1 e2
-        exact ⟨by simp only [coreCount, compCount, ackChans_mgr, hb] at h1 ⊢; omega, noTicket_nil⟩
+        exact ⟨by simp only [coreCount, compCount, ackAt_mgr, hb] at h1 ⊢; omega, noTicket_nil⟩
       | some t =>
         simp [hc] at h
         obtain ⟨e1, e2⟩ := h
@@ -1007,7 +1007,7 @@ theorem buildUnsub_shrinks (st : Core) (rid : Id) (s : SubId) (st' : Core) (msg 
   obtain ⟨uid, c, um, _, _, hm, _⟩ := buildUnsub_spec st rid s st' msg h
   intro p hp
   rw [hm] at hp
-  rcases unsubMgr_mem _ _ _ _ p hp with h1 | h1 | h1
+  rcases unsubMgr_mem _ _ _ _ _ p hp with h1 | h1 | h1
   · exact Or.inl h1
   · rw [h1]; exact Or.inr rfl
   · rw [h1]; exact Or.inr rfl
@@ -1056,7 +1056,7 @@ theorem completeSubscribe_shrinks (st : Core) (r : Response) (uid : Id) (t : Tic
       | none => exact shrinks_release st uid
       | some m' =>
         obtain ⟨_, _, e⟩ := insertSubscription_spec _ _ _ _ _ _ _ hins
-        have h0 : Shrinks st ({ st with mgr := m' }.newChan (.sub s) t.op uid).1 := by
+        have h0 : Shrinks st ({ st with mgr := m' }.newChan (.sub s) t.op uid r.id).1 := by
           intro p hp
           simp only [newChan_mgr, e] at hp
           rcases List.mem_cons.1 hp with h | h
@@ -1081,7 +1081,7 @@ theorem processSingleResponse_shrinks (st st' : Core) (r : Response) (effs : Lis
       obtain ⟨m', t⟩ := x
       obtain ⟨_, _, _, hmem, _⟩ := completePendingCall_frame _ _ _ _ hc
       have hst : st'.mgr = m' := by
-        cases t <;> simp [hc] at h <;> rw [← h.1] <;> rfl
+        cases t <;> simp [hc] at h <;> rw [← h.1] <;> first | rfl | exact ackAt_mgr _ _
       intro p hp
       rw [hst] at hp
       exact Or.inl (hmem p hp).1
@@ -1429,7 +1429,7 @@ theorem processSingleResponse_completions (st st' : Core) (r : Response) (effs :
         rw [h.2] at hm; simp [completions] at hm
       | some t0 =>
         have hl : alookup r.id st.mgr.requests = some (.pendingCall (some t0)) := by
-          rcases completePendingCall_spec _ _ _ _ hc with ⟨hl, _⟩ | ⟨_, _, e, _⟩
+          rcases completePendingCall_spec _ _ _ _ hc with ⟨hl, _⟩ | ⟨_, _, _, e, _⟩
           · exact hl
           · simp at e
         simp [hc] at h
@@ -1617,7 +1617,7 @@ theorem buildUnsub_hasCall (st : Core) (rid : Id) (s : SubId) (st' : Core) (msg 
   unfold HasCall at *
   rw [hm]
   have hne : id ≠ rid := by intro e; subst e; rw [hc] at h1; simp at h1
-  exact (unsubMgr_alookup st.mgr rid uid s id _ (by simp) (by simp) hne).2 hc
+  exact (unsubMgr_alookup st.mgr rid uid s c id _ (by simp) (by simp) hne).2 hc
 
 theorem processSubscriptionClose_hasCall (st : Core) (s : SubId) (id : Id) (t : Ticket) (hc : HasCall st id t) :
     HasCall (processSubscriptionClose st s) id t := by
@@ -1652,7 +1652,7 @@ theorem completeSubscribe_hasCall (st : Core) (r : Response) (uid : Id) (t0 : Ti
       | none => exact hasCall_release st uid id t hc
       | some m' =>
         obtain ⟨h1, _, e⟩ := insertSubscription_spec _ _ _ _ _ _ _ hins
-        have h0 : HasCall ({ st with mgr := m' }.newChan (.sub s) t0.op uid).1 id t := by
+        have h0 : HasCall ({ st with mgr := m' }.newChan (.sub s) t0.op uid r.id).1 id t := by
           unfold HasCall
           simp only [newChan_mgr, e]
           exact hasCall_insert _ _ _ _ _ hc h1
@@ -1676,7 +1676,7 @@ theorem processSingleResponse_hasCall (st st' : Core) (r : Response) (effs : Lis
       obtain ⟨m', t0⟩ := x
       obtain ⟨_, _, _, _, _, hfr, _⟩ := completePendingCall_frame _ _ _ _ hcp
       have hst : st'.mgr = m' := by
-        cases t0 <;> simp [hcp] at h <;> rw [← h.1] <;> rfl
+        cases t0 <;> simp [hcp] at h <;> rw [← h.1] <;> first | rfl | exact ackAt_mgr _ _ | exact ackAt_dead _ _
       unfold HasCall at *
       rw [hst]
       exact (hfr id _ (by simp) hne').2 hc
@@ -1817,7 +1817,7 @@ theorem processSingleResponse_dead (st st' : Core) (r : Response) (effs : List E
     | none => simp [hcp] at h
     | some x =>
       obtain ⟨m', t0⟩ := x
-      cases t0 <;> simp [hcp] at h <;> rw [← h.1] <;> rfl
+      cases t0 <;> simp [hcp] at h <;> rw [← h.1] <;> first | rfl | exact ackAt_mgr _ _ | exact ackAt_dead _ _
   | pendingSub =>
     simp only [hs] at h
     cases hcp : st.mgr.completePendingSubscription r.id with
